@@ -14,6 +14,8 @@ from vpx.params import R, param
 NF = param('NF', 2)      # number of cached find_files filters
 CAND = [Path('s/a.c', Root.srcdir), Path('s/d', Root.srcdir, directory=True)]
 CACHED = param('cached', None)   # partition: the cached category masks (one per filter)
+# known finding C08-F23: a directory that appeared since the last real regeneration
+KF_NEWDIR = param('kf_newdir', False)
 INPUTS = [Path('build.bfg', Root.srcdir), Path('options.bfg', Root.srcdir)]
 OUTPUTS = [Path('build.ninja'), Path('extra.out')]
 FR = bfind.FindResult
@@ -48,15 +50,21 @@ def _cats(mask):
 
 
 def c_check_cache(tin: List[int], tout: List[int], out1_exists: bool,
-                  cached: List[int], fresh: List[int]) -> bool:
+                  cached: List[int], fresh: List[int], newdir: bool = False) -> bool:
     """lazy regeneration is skipped (AbortConfigure) exactly when no explicit input is newer than
     an output and every cached find_files result (found and extra lists) equals the fresh one;
     when it is skipped every existing output was touched, and the find cache holds the fresh
     results.  Timestamps are arbitrary integers (0 = missing file, as in the code).
+    newdir: the fresh walk also visits a directory (s/new) that did not exist when the build files
+    and their trigger list (.bfg_find_deps: one prerequisite per walked directory) were last
+    written.  A skipped regeneration leaves that list as it is, so it may only be skipped if every
+    directory walked now is already a trigger; otherwise files added to the new directory later
+    can never start a regeneration.
     pre: len(tin) == 2 and len(tout) == 2 and len(cached) == NF and len(fresh) == NF
     pre: all(t >= 0 for t in tin) and all(t >= 0 for t in tout)
     pre: all(0 <= m < 16 for m in cached) and all(0 <= m < 16 for m in fresh)
     pre: CACHED is None or cached == CACHED
+    pre: not (KF_NEWDIR and newdir)
     post: _
     """
     times = {}
@@ -83,6 +91,8 @@ def c_check_cache(tin: List[int], tout: List[int], out1_exists: bool,
     def find_files(env, filt, seen_dirs=None):
         if seen_dirs is not None:
             seen_dirs.append(Path('s', Root.srcdir, directory=True))
+            if newdir:
+                seen_dirs.append(Path('s/new', Root.srcdir, directory=True))
         m = fresh_of[id(filt)]
         for i, p in enumerate(CAND):
             c = (m >> (2 * i)) & 3
@@ -111,6 +121,8 @@ def c_check_cache(tin: List[int], tout: List[int], out1_exists: bool,
     # skipping is *sound* (never when an input is newer or a result changed) and happens whenever
     # every input is strictly older and nothing changed (equal timestamps may go either way)
     ok = (not aborted or ((not newer) and same)) and (aborted or not (older and same))
+    if aborted and newdir:
+        ok = False          # the trigger list on disk does not know s/new
     if aborted:
         want = [OUTPUTS[0].suffix] + ([OUTPUTS[1].suffix] if out1_exists else [])
         ok = ok and sorted(touched) == sorted(want)
